@@ -229,6 +229,10 @@ fn get_dir_name() -> String {
 
 #[cfg(not(test))]
 fn get_dir_name() -> String {
+    #[cfg(feature = "verif_hooks")]
+    if let Some(d) = crate::verif::data_dir() {
+        return d;
+    }
     NUN_DBS_DIR.to_string()
 }
 
